@@ -9,6 +9,7 @@ import (
 	"encoding/json"
 	"fmt"
 	"go/ast"
+	"go/token"
 	"go/types"
 	"os"
 	"os/exec"
@@ -182,4 +183,91 @@ func walkTerm(o *walkOut, codes map[string]int) (string, int, []string) {
 		items = append(items, fmt.Sprintf("(%s, %s, Some [%s])", coqfmt.Str(parts[0]), parts[1], strings.Join(evs, ";")))
 	}
 	return "[" + strings.Join(items, "; ") + "]", events, unknown
+}
+
+// CommentWalkerNames are the comment walkers of Model_Walkers.v (cwalker_obs).
+var CommentWalkerNames = []string{"comment", "localcomment", "doccomment"}
+
+// ConvertComments renders what the comment walkers read of a file as a term of type Model_Walkers.comments.
+func ConvertComments(f *File) string {
+	tf := Fset.File(f.AST.Pos())
+	pos := func(p token.Pos) int { return tf.Offset(p) + 1 }
+	var groups []string
+	for _, cg := range f.AST.Comments {
+		var cs []string
+		for _, c := range cg.List {
+			cs = append(cs, fmt.Sprintf("(%d,%s)", pos(c.Pos()), coqfmt.Bool(strings.HasPrefix(c.Text, "/*"))))
+		}
+		groups = append(groups, "["+strings.Join(cs, ";")+"]")
+	}
+	var ranges []string
+	for _, d := range f.AST.Decls {
+		ranges = append(ranges, fmt.Sprintf("(%d,%d)", pos(d.Pos()), pos(d.End())))
+	}
+	var docs []string
+	code := func(n ast.Node) int {
+		tag, _, a, _ := tagOf(n)
+		if c, ok := tagCodes[tag]; ok {
+			return c
+		}
+		return 100 + a/1000
+	}
+	add := func(owner ast.Node, doc *ast.CommentGroup) {
+		if doc != nil {
+			docs = append(docs, fmt.Sprintf("(%d,%d,(%d,%d))", code(owner), pos(owner.Pos()), pos(doc.Pos()), len(doc.List)))
+		}
+	}
+	ast.Inspect(f.AST, func(n ast.Node) bool {
+		switch x := n.(type) {
+		case *ast.FuncDecl:
+			add(x, x.Doc)
+		case *ast.GenDecl:
+			add(x, x.Doc)
+		case *ast.ImportSpec:
+			add(x, x.Doc)
+		case *ast.ValueSpec:
+			add(x, x.Doc)
+		case *ast.TypeSpec:
+			add(x, x.Doc)
+		case *ast.Field:
+			add(x, x.Doc)
+		}
+		return true
+	})
+	return fmt.Sprintf("{| c_groups := [%s]; c_decl_range := [%s]; c_docs := [%s] |}", strings.Join(groups, ";"), strings.Join(ranges, ";"), strings.Join(docs, ";"))
+}
+
+// cwalkTerm renders the recorded comment-walker observations of one file (argument list of Model_Walkers.cwalk_detail).
+func cwalkTerm(o *walkOut) (string, int) {
+	var items []string
+	events := 0
+	want := map[string]bool{}
+	for _, w := range CommentWalkerNames {
+		want[w] = true
+	}
+	keys := make([]string, 0, len(o.Seq))
+	for k := range o.Seq {
+		keys = append(keys, k)
+	}
+	sort.Strings(keys)
+	for _, k := range keys {
+		parts := strings.SplitN(k, "/", 2)
+		if !want[parts[0]] {
+			continue
+		}
+		if _, bad := o.Panic[k]; bad {
+			items = append(items, fmt.Sprintf("(%s, %s, None)", coqfmt.Str(parts[0]), parts[1]))
+			continue
+		}
+		var evs []string
+		for _, e := range o.Seq[k] {
+			off := int(e[0].(float64))
+			n := 0
+			fmt.Sscanf(e[1].(string), "cg%d", &n)
+			evs = append(evs, fmt.Sprintf("(%d,%d)", off+1, 1000+n))
+		}
+		events += len(evs)
+		items = append(items, fmt.Sprintf("(%s, %s, Some [%s])", coqfmt.Str(parts[0]), parts[1], strings.Join(evs, ";")))
+	}
+	return "[" + strings.Join(items, "; ") + "]", events
 }
